@@ -14,5 +14,5 @@ SRC = 'C11/h_ooo.cpp'
 def jobs(tier):
     q = tier == 'quick'
     J = []
-    J.append(ksjob('ooo_2callers', SRC, 2, 7, ['NRESP=2'], desc='2 callers, <= 2 responses, symbolic order / deadlines, blocking point inside do_collect', stuck_legal=True, timeout=1200, unwind=5, mem_gb=10))
+    J.append(ksjob('ooo_2callers', SRC, 2, 7, ['NRESP=2'], desc='2 callers, <= 2 responses, symbolic order / deadlines, blocking point inside do_collect', stuck_legal=True, timeout=1200, unwind=3, mem_gb=10))
     return J
